@@ -529,8 +529,6 @@ class LSEMGaussianConditional(LConjugateFactorMGaussianConditional):
         else:
             self.Sigma, ln_det_Lambda = invert_matrix(self.Lambda)
             self.ln_det_Sigma = -ln_det_Lambda
-        self.w0 = self.W[:, 0]
-        self.W = self.W[:, 1:]
         self.update_phi()
 
     @property
@@ -541,7 +539,12 @@ class LSEMGaussianConditional(LConjugateFactorMGaussianConditional):
     @property
     def Dx(self) -> int:
         r"""Dimensionality of :math:`X`."""
-        return self.W.shape[1]
+        return self.W.shape[1] - 1
+
+    @property
+    def w0(self) -> Float[Array, "Dk"]:
+        r"""Offsets :math:`w_{i,0}` (first column of W)."""
+        return self.W[:, 0]
 
     @property
     def Dphi(self) -> int:
@@ -550,8 +553,10 @@ class LSEMGaussianConditional(LConjugateFactorMGaussianConditional):
 
     def update_phi(self):
         """Set up the non-linear kernel function in :math:`\phi(x)`."""
-        v = self.W
-        nu = -self.W * self.w0[:, None]
+        # The field W is kept as given ([w0, w]): __post_init__ may run again when the object is
+        # rebuilt from its fields (pytree unflatten, replace), so it must not strip it in place.
+        v = self.W[:, 1:]
+        nu = -v * self.w0[:, None]
         ln_beta = -0.5 * self.w0**2
         self.k_func = factor.OneRankFactor(v=v, nu=nu, ln_beta=ln_beta)
 
